@@ -3,17 +3,17 @@
 # Confirms a seeded change in a scratch worktree of /repo HEAD: (1) patch applies, (2) repo suite passes with it,
 # (3) demo fails with it, (4) demo passes without it.  Prints one summary line; copies into /verif/seeded/<name>/ on success.
 SRC="$1"; NAME="$2"
-WT=/tmp/seedchk/wt
+WT=/tmp/seedchk/wt${SLOT:-}
 export CARGO_NET_OFFLINE=true
 mkdir -p /tmp/seedchk
 if [ ! -d "$WT" ]; then git -C /repo worktree add -q --detach "$WT" HEAD || exit 2; fi
 cd "$WT" || exit 2
 git checkout -q --detach "$(git -C /repo rev-parse HEAD)" 2>/dev/null
 git reset -q --hard HEAD; rm -f tests/seeded_demo.rs
-if ! git apply "$SRC/patch.diff" 2>/tmp/seedchk/apply.err; then
-  if ! git apply --3way "$SRC/patch.diff" 2>>/tmp/seedchk/apply.err; then echo "$NAME: PATCH DOES NOT APPLY"; head -3 /tmp/seedchk/apply.err; git reset -q --hard HEAD; exit 1; fi
+if ! git apply "$SRC/patch.diff" 2>/tmp/seedchk/apply${SLOT:-}.err; then
+  if ! git apply --3way "$SRC/patch.diff" 2>>/tmp/seedchk/apply${SLOT:-}.err; then echo "$NAME: PATCH DOES NOT APPLY"; head -3 /tmp/seedchk/apply${SLOT:-}.err; git reset -q --hard HEAD; exit 1; fi
 fi
-git diff HEAD -- src > /tmp/seedchk/rebased.diff
+git diff HEAD -- src > /tmp/seedchk/rebased${SLOT:-}.diff
 git reset -q
 SUITE=$(cargo nextest run --workspace --no-fail-fast --test-threads 8 --offline 2>&1 | grep -E "Summary" | tail -1)
 cp "$SRC/demo.rs" tests/seeded_demo.rs
@@ -28,7 +28,7 @@ echo "$DEMO_WITH" | grep -q "FAILED" || OK=0
 echo "$DEMO_WITHOUT" | grep -q "test result: ok" || OK=0
 if [ $OK = 1 ]; then
   mkdir -p /verif/seeded/$NAME
-  cp /tmp/seedchk/rebased.diff /verif/seeded/$NAME/patch.diff
+  cp /tmp/seedchk/rebased${SLOT:-}.diff /verif/seeded/$NAME/patch.diff
   cp "$SRC/demo.rs" /verif/seeded/$NAME/demo.rs
   cp "$SRC/meta.json" /verif/seeded/$NAME/meta.agent.json
   echo "$NAME: CONFIRMED"
